@@ -6,6 +6,7 @@ CONSTANTS
   LeaseIds = {1}
   MaxNow = 1
   MaxHist = 40
+  PathView = FALSE
   FullHist = FALSE
 INIT Init
 NEXT NextCore
